@@ -60,14 +60,21 @@ Qed.
 
 (* a numbered prefix is passed over *)
 Lemma alloc_numbered_prefix A : forall B g,
-  (forall t, In t A -> t_mid t <> "" /\ bump g (t_mid t) = g) ->
+  (forall t, In t A -> t_mid t <> "") ->
   alloc_mids g (A ++ B) = (fst (alloc_mids g B), A ++ snd (alloc_mids g B)).
 Proof.
   induction A as [|t rest IH]; intros B g H.
   - cbn. destruct (alloc_mids g B). reflexivity.
-  - cbn [List.app alloc_mids]. destruct (H t (or_introl eq_refl)) as [Hne Hb].
-    unfold mid_unset. rewrite (eqb_empty_false _ Hne), Hb.
+  - cbn [List.app alloc_mids]. pose proof (H t (or_introl eq_refl)) as Hne.
+    unfold mid_unset. rewrite (eqb_empty_false _ Hne).
     rewrite IH by (intros t0 Ht0; apply H; right; exact Ht0). reflexivity.
+Qed.
+
+(* the first pass over k numbered and m unset transceivers leaves the counter at k-1 *)
+Lemma bump_trs_fixed l : forall g, (forall t, In t l -> bump g (t_mid t) = g) -> bump_trs g l = g.
+Proof.
+  unfold bump_trs. induction l as [|t rest IH]; intros g H; [reflexivity|]. cbn [fold_left].
+  rewrite (H t (or_introl eq_refl)). apply IH. intros t0 Ht0. apply H. right. exact Ht0.
 Qed.
 
 Lemma shape_split k m l :
@@ -110,7 +117,18 @@ Proof.
       rewrite (map_seq_from numeral m k). apply map_ext. intro i. unfold numeral. f_equal. lia.
   - intros t Ht. assert (Hin : In (t_mid t) (map t_mid A)) by (apply in_map; exact Ht).
     rewrite HA in Hin. unfold numerals in Hin. apply in_map_iff in Hin. destruct Hin as (i & <- & Hi).
-    apply in_seq in Hi. split; [apply numeral_nonempty|]. apply bump_numeral; lia.
+    apply numeral_nonempty.
+Qed.
+
+Lemma bump_trs_shape k m l :
+  shape k m l -> (Z.of_nat k <= max_int)%Z -> bump_trs (Z.of_nat k - 1) l = (Z.of_nat k - 1)%Z.
+Proof.
+  intros Hs Hmax. apply bump_trs_fixed. intros t Ht.
+  assert (Hin : In (t_mid t) (map t_mid l)) by (apply in_map; exact Ht).
+  unfold shape in Hs. rewrite Hs in Hin. apply in_app_or in Hin. destruct Hin as [Hin|Hin].
+  - unfold numerals in Hin. apply in_map_iff in Hin. destruct Hin as (i & <- & Hi).
+    apply in_seq in Hi. apply bump_numeral; lia.
+  - apply repeat_spec in Hin. rewrite Hin. reflexivity.
 Qed.
 
 (* ---------- the invariant before any remote description ---------- *)
@@ -119,13 +137,13 @@ Record pre_remote (n : nat) (s : st) : Prop := {
   pr_pend : pend_remote s = None;
   pr_na : neg_audio s = None;
   pr_nv : neg_video s = None;
-  pr_sig : sig s <> HaveRemoteOffer;
+  pr_sig : sig s = Stable \/ sig s = HaveLocalOffer;
   pr_shape : exists k m, shape k m (trs s) /\ gmid s = (Z.of_nat k - 1)%Z /\ (k + m <= n)%nat }.
 
 Definition no_remote (o : op) : Prop := match o with SetRemote _ _ => False | _ => True end.
 
 Lemma pre_remote_init : pre_remote 0 init.
-Proof. constructor; try reflexivity; [discriminate|]. exists 0%nat, 0%nat. split; [reflexivity|split; [reflexivity|lia]]. Qed.
+Proof. constructor; try reflexivity; [left; reflexivity|]. exists 0%nat, 0%nat. split; [reflexivity|split; [reflexivity|lia]]. Qed.
 
 Lemma pre_remote_mono n n' s : (n <= n')%nat -> pre_remote n s -> pre_remote n' s.
 Proof.
@@ -149,7 +167,7 @@ Proof.
 Qed.
 
 Lemma offer_alloc_gmid s :
-  gmid (offer_alloc s) = fst (alloc_mids (bump_remote (gmid s) (cur_remote s)) (trs s)).
+  gmid (offer_alloc s) = fst (alloc_mids (offer_start s) (trs s)).
 Proof. unfold offer_alloc. destruct (alloc_mids _ (trs s)). reflexivity. Qed.
 
 Lemma step_pre n s o :
@@ -165,6 +183,20 @@ Proof.
       unfold shape in *. cbn [trs set_trs]. rewrite map_app, Hsh. cbn [map]. rewrite Hx, <- app_assoc, repeat_snoc. reflexivity. }
     destruct d; cbn [fst]; try (apply Hadd; reflexivity).
     apply (pre_remote_mono n); [lia|exact Hpre].
+  - (* AddTrack *)
+    unfold add_track. destruct (reuse_for_track k0 (trs s)) as [l|] eqn:E; cbn [fst].
+    + constructor; auto. exists k, m. split; [|split; [exact Hg|lia]].
+      unfold shape in *. cbn [trs set_trs]. rewrite <- Hsh. eapply reuse_for_track_mids. exact E.
+    + constructor; auto. exists k, (S m). split; [|split; [exact Hg|lia]].
+      unfold shape in *. cbn [trs set_trs]. rewrite map_app, Hsh. cbn [map new_local_tr t_mid].
+      rewrite <- app_assoc, repeat_snoc. reflexivity.
+  - (* RemoveTrack *)
+    unfold remove_track. destruct (nth_error (trs s) i) as [t|]; [|apply (pre_remote_mono n); [lia|exact Hpre]].
+    destruct (t_sender t); [|apply (pre_remote_mono n); [lia|exact Hpre]]. cbn [fst].
+    constructor; auto. exists k, m. split; [|split; [exact Hg|lia]].
+    unfold shape in *. cbn [trs set_trs]. rewrite <- Hsh.
+    destruct (upd_nth i detach_track (trs s)) as [l|] eqn:E; [|reflexivity].
+    eapply upd_nth_mids; [|exact E]. apply detach_track_mid.
   - (* StopTransceiver *)
     unfold stop_transceiver. destruct (upd_nth i stop_tr (trs s)) as [l|] eqn:E; cbn [fst];
       [|apply (pre_remote_mono n); [lia|exact Hpre]].
@@ -179,17 +211,19 @@ Proof.
     rewrite E in Hm, Hr1, Hr2, Fg, Fs, Fa, Fv. cbn [fst] in *.
     assert (Hb : (Z.of_nat (k + m) <= max_int)%Z) by lia.
     destruct (alloc_shape k m (trs s) Hsh Hb) as [A1 A2].
+    assert (Hst : offer_start s = (Z.of_nat k - 1)%Z).
+    { unfold offer_start. rewrite Hc, Hp. cbn [bump_remote]. rewrite Hg. apply (bump_trs_shape k m); [exact Hsh|lia]. }
     constructor; try congruence.
     exists (k + m)%nat, 0%nat. split; [|split; [|lia]].
-    + unfold shape in *. rewrite Hm, offer_alloc_trs, Hc, Hg. exact A2.
-    + rewrite Fg, offer_alloc_gmid, Hc, Hg. exact A1.
+    + unfold shape in *. rewrite Hm, offer_alloc_trs, Hst. exact A2.
+    + rewrite Fg, offer_alloc_gmid, Hst. exact A1.
   - (* CreateAnswer *)
     unfold create_answer, remote_desc. rewrite Hp, Hc. cbn [fst]. apply (pre_remote_mono n); [lia|exact Hpre].
   - (* SetLocal *)
-    unfold set_local. destruct ty.
-    + destruct (sig s) eqn:Es; cbn [fst]; try (apply (pre_remote_mono n); [lia|exact Hpre]).
-      constructor; auto; [discriminate|]. exists k, m. split; [exact Hsh|split; [exact Hg|lia]].
-    + destruct (sig s) eqn:Es; cbn [fst]; try (apply (pre_remote_mono n); [lia|exact Hpre]). contradiction.
+    unfold set_local.
+    destruct Hsig as [Es|Es]; rewrite Es; destruct ty; cbn [local_next fst];
+      try (apply (pre_remote_mono n); [lia|exact Hpre]).
+    constructor; cbn; auto. exists k, m. split; [exact Hsh|split; [exact Hg|lia]].
 Qed.
 
 Lemma set_mids_shape k m l : shape k m l -> set_mids l = numerals 0 k.
@@ -212,6 +246,37 @@ Qed.
 Lemma offer_alloc_cur s : cur_remote (offer_alloc s) = cur_remote s.
 Proof. unfold offer_alloc. destruct (alloc_mids _ (trs s)). reflexivity. Qed.
 
+Lemma alloc_nowrap_small l : forall g,
+  (-1 <= g)%Z -> (g + Z.of_nat (List.length l) <= max_int)%Z -> alloc_nowrap g l = true.
+Proof.
+  induction l as [|t rest IH]; intros g H0 Hmax; [reflexivity|].
+  cbn [alloc_nowrap List.length] in *. rewrite Nat2Z.inj_succ in Hmax.
+  destruct (mid_unset t).
+  - apply andb_true_iff. split; [apply small_in_int; lia|apply IH; lia].
+  - apply IH; lia.
+Qed.
+
+Lemma alloc_nowrap_set_prefix A : forall B g,
+  (forall t, In t A -> t_mid t <> "") -> alloc_nowrap g (A ++ B) = alloc_nowrap g B.
+Proof.
+  induction A as [|t rest IH]; intros B g H; [reflexivity|].
+  cbn [List.app alloc_nowrap]. unfold mid_unset. rewrite (eqb_empty_false _ (H t (or_introl eq_refl))).
+  apply IH. intros t0 Ht0. apply H. right. exact Ht0.
+Qed.
+
+Lemma alloc_nowrap_shape k m l :
+  shape k m l -> (Z.of_nat (k + m) <= max_int)%Z -> alloc_nowrap (Z.of_nat k - 1) l = true.
+Proof.
+  intros Hs Hmax. destruct (shape_split _ _ _ Hs) as (A & B & -> & HA & HB).
+  rewrite alloc_nowrap_set_prefix.
+  - apply alloc_nowrap_small; [lia|].
+    assert (HlenB : List.length B = m) by (rewrite <- (map_length t_mid), HB, repeat_length; reflexivity).
+    rewrite HlenB. lia.
+  - intros t Ht. assert (Hin : In (t_mid t) (map t_mid A)) by (apply in_map; exact Ht).
+    rewrite HA in Hin. unfold numerals in Hin. apply in_map_iff in Hin. destruct Hin as (i & <- & Hi).
+    apply numeral_nonempty.
+Qed.
+
 (* a CreateOffer from such a state satisfies C06 *)
 Lemma pre_remote_offer_c06 n s s' d :
   pre_remote n s -> (Z.of_nat n <= max_int)%Z -> create_offer s = (s', Ok d) -> c06_holds d.
@@ -219,8 +284,10 @@ Proof.
   intros [Hc Hp Hna Hnv Hsig (k & m & Hsh & Hg & Hkm)] Hmax H.
   assert (Hb : (Z.of_nat (k + m) <= max_int)%Z) by lia.
   destruct (alloc_shape k m (trs s) Hsh Hb) as [A1 A2].
+  assert (Hst : offer_start s = (Z.of_nat k - 1)%Z).
+  { unfold offer_start. rewrite Hc, Hp. cbn [bump_remote]. rewrite Hg. apply (bump_trs_shape k m); [exact Hsh|lia]. }
   assert (Htrs : map t_mid (trs (offer_alloc s)) = numerals 0 (k + m)).
-  { rewrite offer_alloc_trs, Hc. cbn [bump_remote]. rewrite Hg. unfold shape in A2. rewrite A2. cbn. apply app_nil_r. }
+  { rewrite offer_alloc_trs, Hst. unfold shape in A2. rewrite A2. cbn. apply app_nil_r. }
   assert (Hor : offer_remote (offer_alloc s) = None).
   { unfold offer_remote. rewrite offer_alloc_cur, Hc. reflexivity. }
   eapply create_offer_c06; [| |exact H].
@@ -228,10 +295,7 @@ Proof.
     + rewrite (set_mids_shape _ _ _ Hsh). apply numerals_nodup.
     + split; intros d0 Hd; congruence.
   - unfold offer_guard. split; [|split; [|split]].
-    + unfold numbering_ok. rewrite set_mids_all.
-      * rewrite Htrs. apply numerals_nodup.
-      * intros t Ht. assert (Hin : In (t_mid t) (map t_mid (trs (offer_alloc s)))) by (apply in_map; exact Ht).
-        rewrite Htrs in Hin. unfold numerals in Hin. apply in_map_iff in Hin. destruct Hin as (i & <- & _). apply numeral_nonempty.
+    + unfold offer_nowrap. rewrite Hst. apply (alloc_nowrap_shape k m); assumption.
     + intros t r _ Hr. rewrite Hor in Hr. destruct Hr.
     + intros l base g E. unfold offer_sections in E. rewrite Hor in E. unfold gen_unmatched in E.
       injection E as _ <- _.
@@ -283,6 +347,8 @@ Proof.
   destruct (trace_pre ops init 0 pre_remote_init Hno' Hmax _ _ _ _ Hin) as (n & Hn & Hp & Hs).
   destruct o; cbn [step] in Hs.
   - destruct (add_transceiver s k d); discriminate.
+  - destruct (add_track s k); discriminate.
+  - destruct (remove_track s i); discriminate.
   - destruct (stop_transceiver s i); discriminate.
   - destruct (create_data_channel s); discriminate.
   - destruct (create_offer s) as [s1 r1] eqn:E. injection Hs as -> ->.
